@@ -10,9 +10,14 @@ from .. import travrules as T
 EDITS = {"replace", "replacen", "replace_range", "remove", "truncate", "split", "splitn", "rsplit", "rsplitn", "split_off", "split_at", "trim", "trim_end", "trim_start", "trim_matches", "trim_end_matches", "trim_start_matches", "strip_suffix", "strip_prefix", "insert_str", "insert", "drain", "retain", "pop", "lines", "to_lowercase", "to_uppercase", "repeat", "chars", "bytes", "get", "split_once", "rsplit_once", "clear"}
 
 
+_PRINTED_PARAMS = set()  # (def path, parameter index) of local helpers the printed text is handed to
+
+
 def _is_printed_code(o):
     root, proj = o
     if root[0] == "param" and root[1].endswith("rewriter::print_js") and root[2] == 0:
+        return True
+    if root[0] == "param" and (root[1], root[2]) in _PRINTED_PARAMS:
         return True
     if proj and proj[-1] == "code" and (root[0] in ("call", "closure_param", "param") or True) and "code" in proj:
         return "code" == proj[-1]
@@ -25,6 +30,24 @@ def rule_textedit(check):
     prog = check.prog
     pv = Prov(prog)
     fns = [prog.fn("rewriter::print_js"), prog.fn("rewriter::transform_js"), prog.fn("lib_wasm::Rewriter::rewrite")]
+    # local helpers the printed text is handed to are inspected as well (transitively)
+    _PRINTED_PARAMS.clear()
+    work = list(fns)
+    while work:
+        f = work.pop()
+        for n in hir.calls_in(f.body):
+            g = prog.resolve_local(n)
+            if g is None or g.body is None or g.rec.get("gen"):
+                continue
+            for i, a in enumerate(hir.call_args(n)):
+                ty = hir.peel(a).get("ty") or ""
+                if not any(t in ty for t in ("str", "String", "Cow<")):
+                    continue
+                if any(_is_printed_code(o) for o in pv.origins(f, a)) and (g.def_path, i) not in _PRINTED_PARAMS and not g.def_path.endswith("rewriter::print_js"):
+                    _PRINTED_PARAMS.add((g.def_path, i))
+                    if g not in fns:
+                        fns.append(g)
+                    work.append(g)
     n_recv = 0
     for f in fns:
         for n in f.nodes():
